@@ -75,17 +75,37 @@ structure St where
   children : Nat → List (String × Nat)
   next : Nat
 
-/-- `_node_injection`: `self.owner.parent.children[label]`, on `AttributeError` (no parent) or `KeyError`
-create the node with `parent=self.owner.parent, label=label`.  Returns the state and the node. -/
-def inject (H : Key → String) (p : Printer) (st : St) (parent : Option Nat) (e : Expr) : St × Nat :=
+/-- `_node_injection` for an arbitrary way `L` of naming expressions: `self.owner.parent.children[L e]`, on
+`AttributeError` (no parent) or `KeyError` create the node with `parent=self.owner.parent, label=L e`.
+Returns the state and the node. -/
+def injectL (L : Expr → String) (st : St) (parent : Option Nat) (e : Expr) : St × Nat :=
   match parent with
   | none => ({ st with next := st.next + 1 }, st.next)
   | some par =>
-    match (st.children par).lookup (label H p e) with
+    match (st.children par).lookup (L e) with
     | some n => (st, n)
     | none =>
-      ({ children := updF st.children par (st.children par ++ [(label H p e, st.next)]), next := st.next + 1 },
+      ({ children := updF st.children par (st.children par ++ [(L e, st.next)]), next := st.next + 1 },
        st.next)
+
+/-- `_node_injection` with the label of `_get_injection_label` -/
+def inject (H : Key → String) (p : Printer) (st : St) (parent : Option Nat) (e : Expr) : St × Nat :=
+  injectL (label H p) st parent e
+
+/-! ### the operand-printing function as a parameter
+
+`_other_key` decides what of an operand enters the key.  `pr` is any such function (the one in /repo is `opKey`:
+scoped label of a channel, type name + full `repr` of anything else; a size-bounded `reprlib.repr` is another). -/
+
+def keyWith (pr : Operand → OpKey) (e : Expr) : Key := .struct e.slabel e.cls (e.ops.map pr)
+
+def labelWith (H : Key → String) (pr : Operand → OpKey) (e : Expr) : String :=
+  "injected_" ++ e.cls ++ "_" ++ H (keyWith pr e)
+
+/-- a printer that keeps only the first `n` characters of the `repr` of a raw operand -/
+def truncKey (n : Nat) : Operand → OpKey
+  | .chan _ s => .ch s
+  | .raw t _ r => .obj t (String.ofList (r.toList.take n))
 
 /-- `x[a:b:c]` where some slice component is channel-like: first a `Slice` node made from the three
 components *without* the owner's value (`inject_self=False`; its label is still derived from the owner),
